@@ -221,12 +221,20 @@ def gen_layout(rng):
             L[k]["name"] = " " + L[k]["name"] + " "
     L["inc1"] = {"dir": place(), "name": gen_name(rng, ".conf")}
     L["inc2"] = {"dir": place(), "name": gen_name(rng, ".conf")}
-    # 'extends' is a blank-separated list: keep blanks out of those two references
-    if any(c.isspace() for c in rel(L, "schema", "base1") + rel(L, "base1", "base2")):
+    # a second include after the first one, in the main file and in the first included file:
+    # each reference is relative to the file that contains it, whatever was included before
+    L["inc3"] = {"dir": place(), "name": gen_name(rng, ".conf")}
+    L["inc4"] = {"dir": place(), "name": gen_name(rng, ".conf")}
+    # references may be written percent-encoded (the only way to name a file with a blank in an
+    # 'extends' list)
+    L["quoted"] = rng.random() < 0.5
+    # 'extends' is a blank-separated list: keep blanks out of those two references (unless they
+    # are written percent-encoded)
+    if not L["quoted"] and any(c.isspace() for c in rel(L, "schema", "base1") + rel(L, "base1", "base2")):
         L["base1"]["dir"] = "top"
         L["base2"]["dir"] = "top"
     seen = set()
-    for k in ("schema", "base1", "base2", "base3", "types", "conf", "inc1", "inc2"):
+    for k in ("schema", "base1", "base2", "base3", "types", "conf", "inc1", "inc2", "inc3", "inc4"):
         key = (L[k]["dir"], L[k]["name"].lower())
         while key in seen:
             L[k]["name"] = "z" + L[k]["name"]
@@ -260,7 +268,24 @@ def write_layout(root, L, frag=None):
     for d in L["dirs"].values():
         os.makedirs(os.path.join(root, *[p for p in d.split("/") if p]), exist_ok=True)
     f = lambda k: "#frag" if frag == k else ""  # noqa
-    files = {
+    files = _layout_files(L, f)
+    for k, text in files.items():
+        with open(path(k), "w", encoding="utf-8", newline="\n") as fh:
+            fh.write(text)
+    return path("schema"), path("conf")
+
+
+def qrel(L, a, b):
+    r = rel(L, a, b)
+    if L.get("quoted"):
+        from urllib.parse import quote
+        r = quote(r, safe="/~+&;[]-_.")
+    return r
+
+
+def _layout_files(L, f):
+    rel = qrel  # noqa
+    return {
         "base2": '<schema>\n  <key name="b2" default="two"/>\n</schema>\n',
         "base1": '<schema extends=%s>\n  <key name="b1" default="one"/>\n</schema>\n'
                  % xml_attr(rel(L, "base1", "base2") + f("extends2")),
@@ -271,13 +296,11 @@ def write_layout(root, L, frag=None):
                   % (xml_attr(rel(L, "schema", "base1") + f("extends") + " " + rel(L, "schema", "base3") + f("extends-last")),
                      xml_attr(rel(L, "schema", "types") + f("src"))),
         "inc2": "m from-inc2\n<ts deep>\n k 3\n</ts>\n",
-        "inc1": "m from-inc1\n%%include %s%s\nb1 changed\n" % (rel(L, "inc1", "inc2"), f("include2")),
-        "conf": "m first\n<ts a>\n  k 1\n</ts>\n%%include %s%s\nm last\n" % (rel(L, "conf", "inc1"), f("include")),
+        "inc4": "m from-inc4\n",
+        "inc3": "m from-inc3\n",
+        "inc1": "m from-inc1\n%%include %s%s\nb1 changed\n%%include %s\n" % (rel(L, "inc1", "inc2"), f("include2"), rel(L, "inc1", "inc4")),
+        "conf": "m first\n<ts a>\n  k 1\n</ts>\n%%include %s%s\n%%include %s\nm last\n" % (rel(L, "conf", "inc1"), f("include"), rel(L, "conf", "inc3")),
     }
-    for k, text in files.items():
-        with open(path(k), "w", encoding="utf-8", newline="\n") as fh:
-            fh.write(text)
-    return path("schema"), path("conf")
 
 
 def crosses(L):
@@ -408,7 +431,7 @@ def check_layout(L, frag=None):
         elif cfirst[0] != "ok":
             out.append(("layout-config-rejected", repr(cfirst[1:])))
         else:
-            want_m = ["first", "from-inc1", "from-inc2", "last"]
+            want_m = ["first", "from-inc1", "from-inc2", "from-inc4", "from-inc3", "last"]
             got = cfirst[1]["attrs"].get("m")
             if got != want_m or cfirst[1]["attrs"].get("b1") != "changed" or cfirst[1]["attrs"].get("b2") != "two" \
                     or cfirst[1]["attrs"].get("b3") != "three":
@@ -464,11 +487,12 @@ def _rel(cwd, root):
 def evaluate(case):
     if case.get("kind") == "layout":
         L = case["layout"]
-        if "base3" not in L:
+        if "base3" not in L or "inc4" not in L:
             return []
-        for k in ("schema", "base1", "base2", "base3", "types", "conf", "inc1", "inc2"):
+        for k in ("schema", "base1", "base2", "base3", "types", "conf", "inc1", "inc2", "inc3", "inc4"):
             n = L[k]["name"]
-            if not n or "/" in n or n in (".", "..") or any(c in n for c in "#?%\x00\n\r\\") or n != n.strip():
+            if not n or "/" in n or n in (".", "..") or any(c in n for c in "#?%\x00\n\r\\") \
+                    or (n != n.strip() and k not in ("schema", "conf")) or not n.strip():
                 return []
         for d in L["dirs"].values():
             for part_ in d.split("/"):
